@@ -29,8 +29,13 @@ def while_do_(
             obs = reactivex.from_future(source)
         else:
             obs = source
-        it = itertools.takewhile(condition, (obs for _ in infinite()))
-        return reactivex.concat_with_iterable(it)
+        # Build the iterator at subscription time: takewhile() is one-shot, so a
+        # second subscription would otherwise find it exhausted.
+        return reactivex.defer(
+            lambda _: reactivex.concat_with_iterable(
+                itertools.takewhile(condition, (obs for _ in infinite()))
+            )
+        )
 
     return while_do
 
